@@ -32,7 +32,7 @@
 (***************************************************************************)
 EXTENDS Integers, Sequences, FiniteSets, TLC, Json, Randomization
 
-CONSTANTS Family,     \* "search" | "merge" | "fetch" | "rand"
+CONSTANTS Family,     \* "search" | "merge" | "fetch" | "store" | "rand"
           Topos,      \* topology codes hs*1000 + hr*100 + cs*10 + cr (hot shards, hot replicas, cold shards, cold replicas)
           HotReads,   \* subset of BOOLEAN: hot tier configured as HotReadStores (HotStores = a decoy that must not be asked)
           SBs,        \* search behaviours of a host
@@ -384,6 +384,19 @@ FBChoices(hot, cold) ==
             f \in {g \in [src -> FBAll] : Cardinality({h \in src : g[h] # FBok}) <= MaxFaulty}}
     ELSE {[h \in H |-> FBok]}
 
+\* ---- family "store": the first hot host is a REAL store (storeapi.GrpcV1.doSearch); its search behaviour
+\* is not scripted but follows from its state.  Times are abstract: the driver maps t to
+\* (creation time of the store's oldest fraction) + (t - OldestCT) seconds.
+NoStore == [mode |-> "fake", mature |-> FALSE, oct |-> 0, from |-> 0]
+StoreOCT == 5
+StoreData == {<<8, 1>>, <<9, 1>>, <<10, 1>>}
+\* storeapi/grpc_search.go doSearch + earlierThanOldestFrac: a hot store, once mature (it has rotated data
+\* away at least once), refuses a range that starts before the creation time of its oldest fraction
+StoreRefuses(st) == st.mode = "hot" /\ st.mature /\ (st.oct = 0 \/ st.oct > st.from)
+StoreChoices == IF Family = "store"
+                  THEN [mode : {"hot", "cold"}, mature : BOOLEAN, oct : {StoreOCT}, from : {3, 5, 7}]
+                  ELSE {NoStore}
+
 \* ---- seeded random scenarios (family "rand", tlc -simulate)
 Pick(X) == RandomElement(X)
 RandSB(z) == LET i == Pick(1..10) IN IF i <= 4 THEN "ok" ELSE IF i <= 6 THEN "err" ELSE Pick(SBs)
@@ -397,7 +410,7 @@ RandScenario(z) ==
       data |-> [h \in H |-> RandomSubset(Pick(0..3), RandU)],
       req |-> [size |-> Pick(Sizes), offset |-> Pick(Offsets), order |-> Pick(Orders)],
       hint |-> Pick(Hints),
-      fb |-> [h \in H |-> RandFB(h)]]
+      fb |-> [h \in H |-> RandFB(h)], store |-> NoStore]
 
 \* ---- behaviour: stage 0 -> 1 (topology, search behaviours) -> 2 (data, request, hint, fetch behaviours) -> 3
 Init == stage = 0 /\ sc = <<>> /\ alw = {}
@@ -409,9 +422,12 @@ Step1 == /\ stage = 0 /\ Family # "rand"
          /\ stage' = 1 /\ alw' = {}
 Step2 == /\ stage = 1
          /\ \E d \in DataChoices(sc.hot, sc.cold), sz \in Sizes, off \in Offsets, ord \in Orders, hint \in Hints :
-              \E fb \in FBChoices(sc.hot, sc.cold) :
-                sc' = [topo |-> sc.topo, hot |-> sc.hot, cold |-> sc.cold, hotread |-> sc.hotread, sb |-> sc.sb,
-                       data |-> d, req |-> [size |-> sz, offset |-> off, order |-> ord], hint |-> hint, fb |-> fb]
+              \E fb \in FBChoices(sc.hot, sc.cold), st \in StoreChoices :
+                sc' = [topo |-> sc.topo, hot |-> sc.hot, cold |-> sc.cold, hotread |-> sc.hotread,
+                       sb |-> IF st.mode = "fake" THEN sc.sb
+                              ELSE [sc.sb EXCEPT ![sc.hot[1][1]] = IF StoreRefuses(st) THEN "old" ELSE "ok"],
+                       data |-> IF st.mode = "fake" THEN d ELSE [d EXCEPT ![sc.hot[1][1]] = StoreData],
+                       req |-> [size |-> sz, offset |-> off, order |-> ord], hint |-> hint, fb |-> fb, store |-> st]
          /\ stage' = 2 /\ alw' = {}
 \* stage 3 repeats the scenario: the invariants and the emission are evaluated there, one successor per
 \* state, so that TLC's workers share the expensive part
@@ -462,6 +478,16 @@ AllUpIsComplete ==
   (Final /\ (\A i \in DOMAIN sc.hot : Answered(sc, sc.hot[i])) /\ (\A h \in DOMAIN sc.fb : sc.fb[h] = FBok)) =>
      \A a \in alw : a.kind = "complete" /\ \A i \in DOMAIN a.docs : a.docs[i] = {BodyOf(IDsOnly(a)[i], a.ids[i][3])}
 
+\* family "store": a range that begins before the oldest fraction of a mature hot store may miss rotated
+\* documents, so that store's answer is never presented (the cold tier answers or the request fails); a
+\* range inside its retention, an immature store and a cold store are answered by the store itself
+RetentionHonest ==
+  (Final /\ sc.store.mode # "fake") =>
+    LET st == sc.store
+        older == st.mode = "hot" /\ st.mature /\ st.from < st.oct
+    IN /\ older => \A a \in alw : a.kind = "error" \/ a.tier = "cold"
+       /\ (~older /\ st.oct > 0) => \A a \in alw : a.kind = "complete" /\ a.tier = "hot"
+
 \* the signature of the deviation of the pinned lessFuncPosBased (see header)
 FindingSig(s, Q) == s.hint # "" /\ \E h \in OpenSrcs(s, Q) : s.fb[h].k \in {"extra", "reorder"}
 FetchOK(s, a, perm, hintKeyed) ==
@@ -490,6 +516,6 @@ Deviations ==
 
 HostAns(s) == [h \in DOMAIN s.sb |-> Ans(s, h)]
 Emit == Final => PrintT(<<"CASE", ToJson([hot |-> sc.hot, cold |-> sc.cold, hotread |-> sc.hotread, req |-> sc.req,
-                                          hint |-> sc.hint, sb |-> sc.sb, ans |-> HostAns(sc), fbk |-> [h \in DOMAIN sc.fb |-> sc.fb[h].k],
+                                          hint |-> sc.hint, sb |-> sc.sb, ans |-> HostAns(sc), store |-> sc.store, fbk |-> [h \in DOMAIN sc.fb |-> sc.fb[h].k],
                                           fetch |-> FetchTable(sc), allowed |-> alw])>>)
 =============================================================================
